@@ -11,13 +11,15 @@ import extract
 from ir import Facts
 paths = set()
 consts = set()
+sigs = {}
 for cfg in ("default", "mwhc"):
     p, inf = extract.get_facts(cfg, src_root="/repo")
     F = Facts(p)
     for b in F.bodies:
         if b.dk in ("Fn", "AssocFn"):
             paths.add(b.path)
+            sigs[b.path] = "%s -> %s" % (", ".join(str(t) for t in b.sig_in), b.ret)
         elif b.dk in ("Const", "AssocConst", "Static"):
             consts.add(b.path)
-json.dump({"_comment": "function and constant paths of the reference tree; see tools/gen_known_fns.py", "paths": sorted(paths), "consts": sorted(consts)}, open(os.path.join(VERIF, "tables", "known_fns.json"), "w"), indent=0)
+json.dump({"_comment": "function and constant paths of the reference tree; see tools/gen_known_fns.py", "paths": sorted(paths), "consts": sorted(consts), "sigs": sigs}, open(os.path.join(VERIF, "tables", "known_fns.json"), "w"), indent=0)
 print(len(paths), "functions", len(consts), "constants")
